@@ -83,6 +83,12 @@ def run(chk):
                 for o in outcome:
                     it.ctx.assume(z3.And(o >= 0, o <= 2))
                 args = [ast_from_source(it, "1", "eval").fields["body"], ast_from_source(it, "2", "eval").fields["body"]]
+                # an argument as tracing passes it: a place node whose place carries the comptime value.  Only the
+                # NODE may be duplicated — the place and the value behind it are not AST and must be handed on
+                # as they are (a traced value cannot be copied: looking up __deepcopy__ on it is a comptime error)
+                PN = it.lookup_global(e.module("guppylang_internals.nodes"), "PlaceNode")
+                place = SObj(ClassVal("ComptimeVariable", builtin=True), {"name": "%tmp0", "static_value": SObj(ClassVal("TracedValue", builtin=True), {})})
+                args.append(SObj(PN, {"place": place, "lineno": 1, "col_offset": 0, "end_lineno": 1, "end_col_offset": 1}))
                 snapshot = [dict(a.fields) for a in args]
                 defs = {}
 
@@ -129,7 +135,7 @@ def run(chk):
                 else:
                     return z3.BoolVal(False)
                 return z3.And(*conj)
-            chk.prove_paths(f"OverloadedFunctionDef.{mode}[{n}-variants]:first-accepting-variant-wins/\\later-ones-not-consulted/\\only-GuppyError-falls-through/\\each-attempt-sees-the-original-arguments",
+            chk.prove_paths(f"OverloadedFunctionDef.{mode}[{n}-variants]:first-accepting-variant-wins/\\later-ones-not-consulted/\\only-GuppyError-falls-through/\\each-attempt-sees-the-original-arguments(fresh-nodes,places-and-comptime-values-shared)",
                             paths, post, func=f"{MOD}:OverloadedFunctionDef.{mode}", replay=lambda m: {"script": REPLAY, "input": {}})
             chk.record(f"OverloadedFunctionDef.{mode}[{n}]:all-outcome-combinations-explored", len(paths) >= 2 * n + 1, f"{len(paths)} paths", kind="reachability")
 
@@ -154,7 +160,7 @@ def run(chk):
     chk.expected_min_obligations = 25
     chk.assumptions += ["a variant's check_call/synthesize_call is abstracted to a symbolic outcome that may mutate the argument nodes it receives (as ExprChecker.check does through with_type)",
                         "variant lists of length 1..3 (the loop over func_ids is unrolled: a bound on the number of variants)",
-                        "copy.deepcopy duplicates the argument trees (pyvc model)"]
+                        "copy.copy of an AST node gives a new node with the same field values (pyvc model); places and comptime values behind argument nodes must be shared, which the obligation demands by identity"]
     chk.not_covered += ["that the callee's own check_call accepts exactly the signatures it should (C12/C16)", "compile-time dispatch (the call node is replaced by the chosen variant's node)"]
     # a variant is applicable only if the instantiation it needs respects the parameter bounds (shared with C12)
     from .C12 import instantiation_checked
